@@ -4028,6 +4028,8 @@ async fn run_rtp_direct_loop(
                         }
                     });
                     inner.set_peer_state(PeerConnectionState::Failed);
+                    // No association will ever serve channels created so far: let their readers go.
+                    inner.close_data_channels();
                 }
                 return;
             }
@@ -4187,6 +4189,8 @@ async fn run_ice_dtls_loop(
                         }
                     });
                     inner.set_peer_state(PeerConnectionState::Failed);
+                    // No association will ever serve channels created so far: let their readers go.
+                    inner.close_data_channels();
                 }
                 return;
             }
@@ -4283,6 +4287,8 @@ async fn handle_connected_state_no_dtls(
                     }
                 });
                 inner.set_peer_state(PeerConnectionState::Failed);
+                    // No association will ever serve channels created so far: let their readers go.
+                    inner.close_data_channels();
                 return false;
             }
             Ok(mut rtcp_loop) => {
@@ -4395,6 +4401,8 @@ async fn handle_connected_state(
                             }
                         });
                         inner.set_peer_state(PeerConnectionState::Failed);
+                    // No association will ever serve channels created so far: let their readers go.
+                    inner.close_data_channels();
                         return false;
                     }
                     Ok(mut rtcp_loop) => {
@@ -4626,6 +4634,19 @@ impl PeerConnectionInner {
             }
         });
         !closed
+    }
+
+    /// Close every registered data channel that is not yet Closed (Close event, sender
+    /// dropped so a pending `DataChannel::recv()` returns). Channels of a live SCTP
+    /// association are closed by its cleanup guard; this covers the ones that never got one.
+    fn close_data_channels(&self) {
+        for dc in self.data_channels.lock().iter().filter_map(|w| w.upgrade()) {
+            let closed = crate::transports::sctp::DataChannelState::Closed as usize;
+            if dc.state.swap(closed, Ordering::SeqCst) != closed {
+                dc.send_event(crate::transports::sctp::DataChannelEvent::Close);
+                dc.close_channel();
+            }
+        }
     }
 
     /// Track a spawned task so it can be aborted on close. Only meant for
@@ -5726,13 +5747,7 @@ impl PeerConnectionInner {
         // Channels created before an SCTP association existed are not reached by the
         // association's cleanup: close them here so a pending `DataChannel::recv()`
         // returns instead of waiting forever. (No-op for channels already Closed.)
-        for dc in self.data_channels.lock().iter().filter_map(|w| w.upgrade()) {
-            let closed = crate::transports::sctp::DataChannelState::Closed as usize;
-            if dc.state.swap(closed, Ordering::SeqCst) != closed {
-                dc.send_event(crate::transports::sctp::DataChannelEvent::Close);
-                dc.close_channel();
-            }
-        }
+        self.close_data_channels();
 
         if let Some(dtls) = self.dtls_transport.lock().as_ref() {
             dtls.close();
